@@ -148,7 +148,8 @@ CLAIMS = {
                 "u64::MAX, -1, i64::MIN), agree (is_x true exactly where as_x is Some; is_f64/as_f64 with the documented "
                 "integer->double asymmetry); as_i64/as_u64 return the stored integer exactly when in range; as_name is Some "
                 "exactly for String/Symbol/Keyword; From<i8..i64> stores n>=0 as PosInt(n) and n<0 as NegInt(n) on the "
-                "boundary values of every width, unsigned as PosInt, floats as Float; each of the 50 PartialEq impls between Value and a primitive, in both operand orders and through references, is evaluated abstractly on the stored integer cases x the boundary values of the primitive type, on booleans, on strings of each name kind and on the non-matching kinds (3298 cases): integers compare by mathematical value, every other pairing is unequal. Preservation of "
+                "boundary values of every width, unsigned as PosInt, floats as Float with exactly the argument as payload (an f32 widened exactly; six values per "
+                "width whose f32 / f64 / decimal forms all differ); each of the 50 PartialEq impls between Value and a primitive, in both operand orders and through references, is evaluated abstractly on the stored integer cases x the boundary values of the primitive type, on booleans, on strings of each name kind, on stored floats against every integer primitive (never equal: a float is never an integer) and against float primitives (IEEE equality with as_f64, integers converted to the nearest double), and on the non-matching kinds (4874 cases): integers compare by mathematical value, every other pairing is unequal. Preservation of "
                 "string/byte/char payloads as values is not decided.",
         "note": _TB + "std's integer From impls are lossless.",
         "technique": "outcome-map extraction by conditional constant propagation over enum variants and boundary "
@@ -254,7 +255,8 @@ _ALSO = {
     "C01": ("text reaches an io sink only through write_all / write_fmt (no short write can lose part of the printed "
             "text, for the io-writer and Display entry points); a token `+c` / `-c` with c an R7RS <sign subsequent> "
             "character (138 cases) is read as a symbol, as the printer writes such names verbatim; the integer boundary "
-            "magnitudes (0, 1, 2^63-1, 2^63, 2^63+1, 2^64-1, both signs) keep their representation when read (shared with C05).", None),
+            "magnitudes (0, 1, 2^63-1, 2^63, 2^63+1, 2^64-1, both signs) keep their representation when read (shared with C05); "
+            "the number printer hands the sink exactly the text itoa / ryu produced, once, on every path.", None),
     "C02": ("the empty list is printed as `()` under every printer option value; with the nil-as-false option nil is "
             "written exactly as `false` is under every boolean syntax; with Emacs Lisp bytes syntax each of the 256 byte "
             "values is written as a three-digit octal escape between quotes and the reader's octal decoder yields the same "
@@ -277,7 +279,8 @@ _ALSO = {
             "is decided on the abstract paths of the number tail; the digit loop of parse_num_literal is evaluated on 88 "
             "boundary literals (u64::MAX, u64::MAX +- 1, 2^64, longest all-max-digit strings, with and without leading "
             "zeros) in radix 2, 8, 10 and 16: the exact value is handed on up to u64::MAX, the long-integer path is "
-            "taken above it, and no arithmetic overflows on the way (cases, not all literals).", None),
+            "taken above it, and no arithmetic overflows on the way (cases, not all literals); the number printer hands the sink "
+            "exactly the text itoa / ryu produced (the shortest text that reads back as the same number), once, on every path.", None),
     "C07": ("no buffering writer (whose pending bytes would be flushed in Drop with the error discarded) is interposed on "
             "the print path; local helpers that only forward to write_all count as the write_all they perform.", None),
     "C08": ("for 240 (token text, option values) cases over representative letter-initial texts {nil, t, x, nil:, t:, x:, "
